@@ -340,32 +340,70 @@ def r4(run: Run, src):
     from .common import normalized_method, flat_conditions
     fi, fn = normalized_method(src, 'CellTranslator', '_set_cell_to_context')
     parents = parent_map(fn)
+    cellp = [p for p in fi.params if p not in ('cls', 'self')][0]
     lex = [n for n in ast.walk(fn) if isinstance(n, ast.Call) and ast.unparse(n.func) in ('Lexer.parse',)]
     if len(lex) != 1:
         raise AnalysisError('C18.R4', 'the formula branch (Lexer.parse) in CellTranslator was not found')
     conds = flat_conditions(path_conditions(fn, lex[0], parents))
     # conditions under which a cell text is lexed as a formula, apart from the "not translated yet" memo test
     own = [(t, pol) for t, pol in conds if 'get_cell' not in ast.unparse(t) and 'has_handled' not in ast.unparse(t)]
-    texts = [(ast.unparse(t), pol) for t, pol in own]
-    is_str = any(x.startswith('isinstance(') and x.endswith(', str)') and pol for x, pol in texts)
-    starts = any((x.endswith(".find('=') == 0") or x.endswith(".startswith('=')") or x.endswith("[0] == '='") or
-                  x.endswith("[:1] == '='")) and pol for x, pol in texts)
-    shown = ' and '.join(('' if pol else 'not ') + x for x, pol in texts)
-    # further conjuncts are harmless when a str that starts with "=" always satisfies them (not None, non-empty)
-    def implied(x, pol):
-        if x.startswith('isinstance(') and x.endswith(', str)') and pol:
+
+    def assignments(name):
+        return [n.value for n in ast.walk(fn) if isinstance(n, ast.Assign) and any(isinstance(t, ast.Name) and t.id == name for t in n.targets)] + \
+               [n.value for n in ast.walk(fn) if isinstance(n, ast.NamedExpr) and n.target.id == name]
+
+    def is_text(e, depth=0):
+        """e denotes the stored cell value itself (cell.value, or a local that only ever names it)"""
+        if isinstance(e, ast.Attribute) and e.attr == 'value' and isinstance(e.value, ast.Name) and e.value.id == cellp:
             return True
-        if (x.endswith(".find('=') == 0") or x.endswith(".startswith('=')") or x.endswith("[0] == '='") or x.endswith("[:1] == '='")) and pol:
-            return True
-        if (x.endswith(' is None') and not pol) or (x.endswith(' is not None') and pol):
-            return True
-        if (x.endswith(" == ''") and not pol) or (x.endswith(" != ''") and pol):
-            return True
+        if isinstance(e, ast.Name) and depth < 4:
+            ds = assignments(e.id)
+            return bool(ds) and all(is_text(d, depth + 1) for d in ds)
         return False
-    extra = [(x, pol) for x, pol in texts if not implied(x, pol)]
+
+    def kind(t, pol):
+        """'str' / 'starts' / 'implied' / None for one atomic condition"""
+        if isinstance(t, ast.Call) and isinstance(t.func, ast.Name) and t.func.id == 'isinstance' and len(t.args) == 2 and \
+                is_text(t.args[0]) and ast.unparse(t.args[1]) == 'str':
+            return 'str' if pol else None
+        if isinstance(t, ast.Call) and isinstance(t.func, ast.Attribute) and t.func.attr == 'startswith' and is_text(t.func.value) and \
+                len(t.args) == 1 and isinstance(t.args[0], ast.Constant) and t.args[0].value == '=':
+            return 'starts' if pol else None
+        if isinstance(t, ast.Compare) and len(t.ops) == 1 and isinstance(t.ops[0], ast.Eq) and pol:
+            l, r = t.left, t.comparators[0]
+            if isinstance(l, ast.Call) and isinstance(l.func, ast.Attribute) and l.func.attr in ('find', 'index') and is_text(l.func.value) and \
+                    len(l.args) == 1 and isinstance(l.args[0], ast.Constant) and l.args[0].value == '=' and \
+                    isinstance(r, ast.Constant) and r.value == 0:
+                return 'starts'
+            if isinstance(l, ast.Subscript) and is_text(l.value) and isinstance(r, ast.Constant) and r.value == '=':
+                sl = l.slice
+                if isinstance(sl, ast.Constant) and sl.value == 0:
+                    return 'starts'
+                if isinstance(sl, ast.Slice) and sl.lower is None and isinstance(sl.upper, ast.Constant) and sl.upper.value == 1 and sl.step is None:
+                    return 'starts'
+        # further conjuncts are harmless when a str that starts with "=" always satisfies them (not None, non-empty, truthy)
+        if is_text(t) and pol:
+            return 'implied'
+        if isinstance(t, ast.Compare) and len(t.ops) == 1 and is_text(t.left):
+            r, op = t.comparators[0], t.ops[0]
+            if isinstance(r, ast.Constant) and r.value is None and (isinstance(op, ast.IsNot) and pol or isinstance(op, ast.Is) and not pol):
+                return 'implied'
+            if isinstance(r, ast.Constant) and r.value == '' and (isinstance(op, ast.NotEq) and pol or isinstance(op, ast.Eq) and not pol):
+                return 'implied'
+        return None
+    kinds = [(kind(t, pol), t, pol) for t, pol in own]
+    shown = ' and '.join(('' if pol else 'not ') + ast.unparse(t) for _, t, pol in kinds)
+    is_str = any(k == 'str' for k, _, _ in kinds)
+    starts = any(k == 'starts' for k, _, _ in kinds)
+    extra = [(t, pol) for k, t, pol in kinds if k is None]
     run.check(is_str and starts and not extra, 'C18.R4', 'CellTranslator/formula-test', 'formula-test',
-              f'a cell is treated as a formula when `{shown[:100]}`; expected: it is a str and starts with "="',
+              f'a cell is treated as a formula when `{shown[:100]}`; expected: the stored value is a str and its first character is "="',
               fact=shown[:80], loc=loc_of(fi.module.path, lex[0]))
+    # what is lexed is the stored text itself
+    arg = lex[0].args[0] if lex[0].args else None
+    run.check(arg is not None and is_text(arg), 'C18.R4', 'CellTranslator/lexed-text', 'lexed-text',
+              f'the lexer receives `{ast.unparse(arg)[:60] if arg is not None else "?"}`, not the stored text of the cell',
+              fact='Lexer.parse(cell.value, ...)', loc=loc_of(fi.module.path, lex[0]))
 
 
 def run(run: Run):
@@ -379,8 +417,16 @@ def run(run: Run):
     run.guard('C18.R2', r2, run, src)
     run.guard('C18.R3', r3, run, src, rt)
     run.guard('C18.R4', r4, run, src)
+    from .common import check_per_instance_state
+    from . import c02
+    run.rule('C18.R5', 'titles and sizes reported by an instance are its own (no class-level mutable state handed out or changed)')
+    run.guard('C18.R5', check_per_instance_state, run, 'C18.R5', rt)
+    run.floor('C18.R5', 6)
+    run.rule('C18.R6', 'a sheet is addressed by its title through the title table only (shared with C02.R3)')
+    borrow(run, 'C18.R6', c02.r3, src)
+    run.floor('C18.R6', 2)
     run.floor('C18.R1', 8)
     run.floor('C18.R2', 6)
     run.floor('C18.R3', 7)
-    run.floor('C18.R4', 1)
+    run.floor('C18.R4', 2)
     return INFO
